@@ -37,7 +37,7 @@ HB = os.path.join(WORK, "hb")
 HX = os.path.join(HB, "hx")
 NPROC = min(16, os.cpu_count() or 4)
 BAD = "( x42414443415345 )"
-NOORACLE = "( i-2 )"
+NOORACLE = ("( i-2 )", "( i30 i-2 )")
 CRASH = "( x4352415348 )"
 HANG = "( x48414e47 )"
 
@@ -355,11 +355,12 @@ def run_both(prop, cases):
             out[idx] = {"impl": norm_obs(im), "model": norm_obs(mo[0]), "cm": mo[1], "ci": mo[2],
                         "stderr": errlist[k].get(j)}
             out[idx]["diverge"] = out[idx]["impl"] != out[idx]["model"]
-            if NOORACLE in out[idx]["model"]:
+            if any(t in out[idx]["model"] for t in NOORACLE):
                 # the case carries no oracle answer for something the model needed: not a valid case
                 out[idx]["model"] = BAD
                 out[idx]["diverge"] = False
                 out[idx]["ci"] = "1"
+                out[idx]["cm"] = "1"
                 out[idx]["noracle"] = True
     return out
 
